@@ -424,7 +424,7 @@ def judge_scan(tb: Table) -> tuple[list[Viol], list[str], list[str]]:
 
 
 USES = ("wrap", "wrap_dim", "wrap_named", "scaled", "ratio", "power", "convert_si", "convert_unit", "approx", "collect",
-    "abs", "float", "thread")
+    "abs", "float", "thread", "evalf")
 
 
 def history_strategy() -> Any:
@@ -483,6 +483,11 @@ def _use(tb: Table, step: list[Any]) -> None:
             th = threading.Thread(target=work)
             th.start()
             th.join()
+        elif kind == "evalf":
+            # numeric evaluation of expressions that merely contain the constant, at reduced precision
+            sympy.N(q * (k + 2), 3 + k % 4)
+            (q**2 / other).evalf(4)
+            (q + q).n(5)
         elif kind == "abs":
             abs(q)
         elif kind == "float":
